@@ -21,9 +21,9 @@
     * hence (`C07_access_discipline`) two writes, or a write and the facts any other thread
       relies on (`KontOk`/`CursorOk` speak only of nodes the thread holds), never concern
       the same node without the mutex changing hands in between.
-  The READ frame (a step's outcome depends only on nodes it holds) is not stated as a
-  theorem; it is visible in the model (every block reads through `find` of an identity it
-  holds or of a child/next pointer of such a node).
+  The READ frame (a step's outcome depends only on the own fields of the nodes it holds) is a
+  theorem too: `Props/C07ReadFrame.lean` (`C07_read_frame`, non-interference proved by a
+  relational argument over every block; `Proofs/CReadFrame*.lean`).
 -/
 import Gobptree.Proofs.ConcOwner
 import Gobptree.Proofs.CSFinal
